@@ -244,7 +244,7 @@ Section RunGen.
   Definition call_forward_analyis (fuel : nat) (keys : list string) (worklist : list nat) (d : gdict T) : py (option (gdict T)) :=
     forward_analyis_gen T t_eqb univ null union inter single f fuel keys worklist d.
   Definition call_backward_analysis (fuel : nat) (keys : list string) (worklist : list nat) (d : gdict T) : py (option (gdict T)) :=
-    backward_analysis_gen T t_eqb null union inter f fuel keys worklist d.
+    backward_analysis_gen T t_eqb univ null union inter f fuel keys worklist d.
 """
 
 
